@@ -252,6 +252,13 @@ func dotTokens(src string) ([]tok, error) {
 					j += 2
 					continue
 				}
+				if src[j] == '\\' && j+1 < len(src) && src[j+1] == '\\' {
+					// Graphviz scans a pair of backslashes as a unit (so the second cannot
+					// escape a quote); a writer doubles a backslash to say one
+					sb.WriteByte('\\')
+					j += 2
+					continue
+				}
 				sb.WriteByte(src[j])
 				j++
 			}
@@ -503,6 +510,9 @@ func parseMermaid(src string) (graph, error) {
 
 var hostileNames = []string{"has space", "quo\"te", "arrow->x", "lt<gt>", "amp&", "new\nline", "ünï", "semi;colon", "brace}", "[bracket]", "back\\slash", "dash-ed", "1starts-with-digit", "node", "graph", "50%done", "a%%b", "100%", "%s%d%v", "tab\there", "@", "@next-", "?"}
 
+// hostileSuffixes: what a name may end in (a prefix never puts these next to the closing quote)
+var hostileSuffixes = []string{"\\", "\"", "\\\"", "\\\\", ">", "-"}
+
 // lookalikes: a character and the way some renderer spells it when escaping.
 var lookalikes = [][2]string{{"\"", "#quot;"}, {"\"", "\\\""}, {"<", "&lt;"}, {">", "&gt;"}, {"&", "&amp;"}, {"\n", "\\n"}, {"\"", "&quot;"}, {" ", "_"}, {"-", "_"}, {"#", "#35;"}, {"\"", "'"}}
 
@@ -549,7 +559,7 @@ var nodeDocs = []string{
 func Run(cfg fw.Config, rec *fw.Rec) {
 	log.SetOutput(io.Discard)
 	rec.Rule = "generated specs (native and source actions, guards, missing / @variable / empty targets, orphans, terminal nodes, empty and absent branch lists, self-loops, parallel branches to one target; with and without the automatic error node) in two strata judged separately: identifier-like node names, and hostile names (spaces, quotes, ->, <, >, &, %, newlines, unicode, keywords; also pairs of names that differ only in a character and its escaped spelling, such as a\"b and a#quot;b); tools.Analyze is compared with a reference graph analysis, tools.Dot output is tokenised as DOT (ids, quoted strings, nestable HTML strings, attribute lists, ->) and tools.Mermaid output as a flowchart, and node / edge multisets are compared with the spec graph; a third of the specs are also rendered with five (from, to) transitions to highlight (existing nodes, start, empty, unknown names), which must not change the node and edge multisets; a fifth of the specs carry documentation strings on the spec and its nodes (with <, >, &, quotes, newlines, long runs without a space or sentence end, DOT punctuation); a fifth of the specs are also analysed and rendered before they are compiled, with their body-less nodes nil as a document loader leaves them; tools.RenderSpecPage must return without error with one table row per node and per branch; non-trivial = spec with >= 2 nodes and >= 1 branch; distinct by spec"
-	rec.Required = []string{"plain_analysis_ok", "plain_dot_ok", "plain_mermaid_ok", "plain_html_ok", "lookalike_names_kept_apart", "rendered_with_a_transition_to_highlight", "uncompiled_specs_with_bodyless_nodes_rendered", "specs_with_node_docs", "native_action_rendered", "missing_target_rendered", "variable_target_rendered", "parallel_branches", "self_loop"}
+	rec.Required = []string{"plain_analysis_ok", "plain_dot_ok", "plain_mermaid_ok", "plain_html_ok", "lookalike_names_kept_apart", "rendered_with_a_transition_to_highlight", "uncompiled_specs_with_bodyless_nodes_rendered", "hostile_names_with_a_hostile_ending", "specs_with_node_docs", "native_action_rendered", "missing_target_rendered", "variable_target_rendered", "parallel_branches", "self_loop"}
 	rec.Assume = []string{"DOT and Mermaid subsets as emitted by the tools (the tokenizers accept what Graphviz / Mermaid accept for these constructs)", "the hostile-name stratum is judged separately so a finding there cannot mask the plain stratum"}
 	n := cfg.Pick(6000, 1000000)
 	fw.Parallel(cfg.Workers, n, func(w, i int) {
@@ -581,6 +591,10 @@ func Run(cfg fw.Config, rec *fw.Rec) {
 			for _, nm := range append(names, "missing") {
 				if nm != "start" && r.Intn(2) == 0 {
 					mapping[nm] = hostileNames[r.Intn(len(hostileNames))] + nm
+					if r.Intn(4) == 0 {
+						mapping[nm] += hostileSuffixes[r.Intn(len(hostileSuffixes))]
+						rec.Bucket("hostile_names_with_a_hostile_ending")
+					}
 				}
 			}
 			// some hostile specs: two different names that an escaping renderer may map
